@@ -44,7 +44,7 @@ def setup():
 
 def cases(seed, tier):
     classes = ['generic3d', 'generic2d', 'steep3d', 'steep2d', 'south_west', 'slow']
-    n = 1500 if tier == 'quick' else 60000
+    n = 1500 if tier == 'quick' else 40000
     return [dict(seed=int(seed) * 1000003 + i, cls=classes[i % len(classes)]) for i in range(n)]
 
 
